@@ -332,6 +332,12 @@ func (v *fnVC) applyCall(c *ssa.CallCommon, x *ssa.Call, pos token.Pos, cond T) 
 			v.oblige("pre@"+key, r.Text, t, pos)
 		}
 	}
+	if v.con != nil {
+		for _, r := range v.con.AtCall[key] {
+			t, _ := v.tr(r.E, env)
+			v.oblige("at-call@"+key, r.Text, t, pos)
+		}
+	}
 	// frame
 	if len(con.Modifies) > 0 {
 		v.calleeFrameCheck(con, env, key, pos)
